@@ -58,7 +58,7 @@ func VsH_LockCycle() {
 	vsAssume(string(p) != string(priv))
 	vsAssert(kmc.IsLocked() && !a.unlocked, "new-wallet-is-locked")
 	vsAssert(vsNoSecrets(a, priv), "locked-new-wallet-holds-no-secret")
-	switch vsFork(9, "scenario") {
+	switch vsFork(11, "scenario") {
 	case 0: // wrong passphrase never unlocks
 		vsAssert(kmc.Unlock(p) != nil, "wrong-passphrase-does-not-unlock")
 		vsAssert(kmc.IsLocked() && !a.unlocked, "failed-unlock-stays-locked")
@@ -117,6 +117,52 @@ func VsH_LockCycle() {
 		vsAssume(err == nil)
 		vsAssert(!a.unlocked && kmc.IsLocked(), "export-does-not-unlock")
 		vsAssert(vsNoSecrets(a, priv), "export-with-current-passphrase-while-locked-leaves-no-secret")
+	case 9: // two keystores: one passphrase governs both, before and after a change made while locked
+		opts := &ScryptOptions{N: 16, R: 8, P: 1}
+		_, err := kmc.NewKeystore(p, vsNondetBytes(32, "seed3"), "other-pass", vsParams, opts)
+		vsAssert(err != nil, "new-keystore-under-another-passphrase-is-refused")
+		vsAssume(err != nil)
+		id2, err := kmc.NewKeystore(priv, vsNondetBytes(32, "seed2"), "second", vsParams, opts)
+		vsAssume(err == nil)
+		a2 := kmc.managedKeystores[id2]
+		vsAssume(a2 != nil && a2 != a)
+		np := vsNondetBytes(6, "newpass")
+		vsAssume(string(np) != string(priv) && string(np) != string(pub))
+		vsAssert(kmc.ChangePrivPassphrase(priv, np, opts) == nil, "change-with-two-keystores-succeeds")
+		vsAssume(!a.unlocked && !a2.unlocked)
+		vsAssert(kmc.Unlock(priv) != nil, "superseded-passphrase-unlocks-no-keystore")
+		vsAssert(!a.unlocked && !a2.unlocked, "failed-unlock-leaves-every-keystore-locked")
+		vsAssume(!a.unlocked && !a2.unlocked)
+		vsAssert(kmc.Unlock(np) == nil, "new-passphrase-unlocks-every-keystore")
+		vsAssert(a.unlocked && a2.unlocked && !kmc.IsLocked(), "unlock-is-all-or-nothing")
+		kmc.Lock()
+		vsAssert(vsNoSecrets(a, np) && vsNoSecrets(a2, np), "lock-wipes-every-keystore")
+	case 10: // a keystore file exported elsewhere under another passphrase q cannot bring q into this wallet
+		opts := &ScryptOptions{N: 16, R: 8, P: 1}
+		mine := vsStore
+		vsStore = &vsStoreT{root: &vsBkt{name: ""}}
+		kb, err := NewKeystoreManagerForPoC(vsDBT{}, pub, vsParams)
+		vsAssume(err == nil)
+		idb, err := kb.NewKeystore(p, vsNondetBytes(32, "seed2"), "foreign", vsParams, opts)
+		vsAssume(err == nil)
+		file, err := kb.ExportKeystore(idb, p)
+		vsAssume(err == nil)
+		vsStore = mine
+		pre := vsStore.root.clone()
+		_, _, err = kmc.ImportKeystore(file, p, nil)
+		vsAssert(err != nil, "import-keeping-a-different-passphrase-is-refused")
+		if err != nil {
+			vsAssert(vsBktEqual(vsStore.root, pre) && len(kmc.managedKeystores) == 1, "refused-import-changes-nothing")
+		}
+		vsAssume(err != nil)
+		id2, _, err := kmc.ImportKeystore(file, p, priv)
+		vsAssert(err == nil, "import-re-encrypting-under-the-wallet-passphrase-succeeds")
+		vsAssume(err == nil)
+		a2 := kmc.managedKeystores[id2]
+		vsAssume(a2 != nil && a2 != a)
+		vsAssert(kmc.Unlock(p) != nil, "file-passphrase-does-not-unlock-the-wallet")
+		vsAssume(!a.unlocked && !a2.unlocked)
+		vsAssert(kmc.Unlock(priv) == nil && a.unlocked && a2.unlocked, "wallet-passphrase-unlocks-the-imported-keystore-too")
 	case 5: // passphrase change while unlocked, then lock
 		np := vsNondetBytes(6, "newpass")
 		vsAssume(string(np) != string(priv) && string(np) != string(pub))
